@@ -884,6 +884,14 @@ func (w *World) mark() {
 				// no reply record (the request was made by the daemon's handler): what the pod owns on this interface now
 				if e, o4, o6 := w.owned(r[3]); e != 0 && w.slotOfENI(e) == r[1] {
 					r[9], r[10] = o4, o6
+				} else {
+					// ... or, when the handler gave the allocation back before the block ended (its record could not be
+					// written), what it was about to record (service harness: 42 1 pod cid eni a4 a6)
+					for _, q := range blk {
+						if len(q) >= 7 && q[0] == 42 && q[1] == 1 && q[2] == r[3] && w.slotOfENI(q[4]) == r[1] {
+							r[9], r[10] = q[5], q[6]
+						}
+					}
 				}
 			}
 		}
